@@ -61,6 +61,9 @@ func BuildUniverse(root string, apps int, small bool, shards int) *Universe {
 		add("E1", decl(ty, "E1", Basic("int"), Const{"Red", "1"}, Const{"Green", "2"}))
 		add("E2", decl(ty2, "E2", Basic("int"), Const{"Red", "10"}, Const{"Green", "20"}))
 		add("E3", decl(ty, "E3", Basic("int"), Const{"Cyan", "1"}, Const{"Magenta", "2"}))
+		// float-based enums: detected like the integer ones
+		add("EF1", decl(ty, "EF1", Basic("float64"), Const{"FRed", "1.5"}, Const{"FGreen", "2.5"}))
+		add("EF3", decl(ty, "EF3", Basic("float64"), Const{"FCyan", "1.5"}, Const{"FMagenta", "2.5"}))
 		add("SA", decl(ty, "SA", Struct(F("A", Basic("int")), F("B", Basic("string")))))
 		add("SB", decl(ty, "SB", Struct(F("A", Basic("int")), F("B", Basic("string")))))
 		add("SC", decl(ty, "SC", Struct(F("A", Basic("int")), F("B", Basic("string")), F("C", Basic("bool")))))
